@@ -409,6 +409,32 @@ impl VectorizedHashTable {
         })
     }
 
+    /// A probe input that is itself a join output carries its child's build-side VARCHAR columns
+    /// dictionary-encoded (see `dict_encode` in create_joined_batch). `vectorized_hash` hashes
+    /// and compares plain arrays only, so a Dictionary probe key never matched a plain build
+    /// key: resolve such keys to their value type before probing. Returns None when no key
+    /// column is dictionary-encoded (the common case: nothing is copied).
+    fn unpack_dictionary_keys(probe_key_arrays: &[ArrayRef]) -> Option<Vec<ArrayRef>> {
+        use arrow::datatypes::DataType;
+        if !probe_key_arrays
+            .iter()
+            .any(|a| matches!(a.data_type(), DataType::Dictionary(_, _)))
+        {
+            return None;
+        }
+        Some(
+            probe_key_arrays
+                .iter()
+                .map(|a| match a.data_type() {
+                    DataType::Dictionary(_, value_type) => {
+                        arrow::compute::cast(a, value_type).unwrap_or_else(|_| a.clone())
+                    }
+                    _ => a.clone(),
+                })
+                .collect(),
+        )
+    }
+
     /// Direct-address mode indexes `heads` by KEY VALUE, so it can only be probed with Int64
     /// values: widen a narrower integer probe key column (an INTEGER column joined to a BIGINT
     /// build key) first. Without this the probes fell through to the hashed walk, which indexes
@@ -444,6 +470,8 @@ impl VectorizedHashTable {
         num_rows: usize,
         mut emit: impl FnMut(u32, u32, u32),
     ) -> bool {
+        let unpacked = Self::unpack_dictionary_keys(probe_key_arrays);
+        let probe_key_arrays: &[ArrayRef] = unpacked.as_deref().unwrap_or(probe_key_arrays);
         if let Some((kmin, kmax)) = self.direct {
             let widened = self.direct_probe_keys(probe_key_arrays);
             if let Some(pa) = widened
@@ -509,6 +537,8 @@ impl VectorizedHashTable {
     }
 
     fn probe_batch(&self, probe_key_arrays: &[ArrayRef], num_rows: usize) -> Vec<(u32, u32, u32)> {
+        let unpacked = Self::unpack_dictionary_keys(probe_key_arrays);
+        let probe_key_arrays: &[ArrayRef] = unpacked.as_deref().unwrap_or(probe_key_arrays);
         let mut matches = Vec::new();
 
         // Direct-address probe: bounds check + slot load; chain entries are
@@ -656,6 +686,8 @@ impl VectorizedHashTable {
     /// Probe for Semi/Anti joins: returns a boolean mask per probe row indicating match.
     #[inline]
     fn probe_batch_semi(&self, probe_key_arrays: &[ArrayRef], num_rows: usize) -> Vec<bool> {
+        let unpacked = Self::unpack_dictionary_keys(probe_key_arrays);
+        let probe_key_arrays: &[ArrayRef] = unpacked.as_deref().unwrap_or(probe_key_arrays);
         let mut matched = vec![false; num_rows];
 
         // Direct-address: membership = slot occupancy, no hash/compare.
